@@ -147,6 +147,18 @@ pub struct Out {
     pub active: bool,
 }
 impl Out {
+    /// an output that discards everything (for twin objects)
+    pub fn sink() -> Self {
+        Out {
+            w: BufWriter::new(File::create("/dev/null").unwrap()),
+            pw: BufWriter::new(File::create("/dev/null").unwrap()),
+            npdus: 0,
+            events: 0,
+            scn: 0,
+            only: None,
+            active: true,
+        }
+    }
     pub fn new(path: &str, only: Option<usize>) -> Self {
         let ppath = format!("{}.pdus", path);
         Out {
